@@ -98,7 +98,7 @@ pub struct AncContig {
     /// (period, total length) of a low-complexity stretch inserted in the middle
     pub low: Option<(u8, u16)>,
     /// non-ACGT runs of the ancestor itself, inherited by every sample (scaffold gaps shared by
-    /// reference and targets): (position, length, kind) with kind 0..=5 = N, else an IUPAC code
+    /// reference and targets): (position, length, kind) with kind 0..=4 = N, 5..=9 an IUPAC code, 10..=13 a homopolymer tract
     pub gaps: Vec<(u16, u16, u8)>,
 }
 
@@ -183,7 +183,13 @@ fn expand_anc(a: &AncContig) -> Vec<u8> {
         }
         let p = scale(*pos, s.len());
         let l = (*len as usize).min(s.len() - p).max(1);
-        let c = if *kind <= 5 { b'N' } else { IUPAC[5 + (*kind as usize % 11)] };
+        // kinds: 0..=4 N, 5..=9 an ambiguity code, 10..=13 a homopolymer tract (poly-A packs to 0x00
+        // bytes, poly-T to 0xFF bytes in stored-raw tuple-packed segments)
+        let c = match *kind {
+            0..=4 => b'N',
+            5..=9 => IUPAC[5 + (*kind as usize * 3) % 11],
+            _ => b"ACGT"[*kind as usize % 4],
+        };
         for x in &mut s[p..p + l] {
             *x = c;
         }
@@ -615,7 +621,7 @@ fn anc_strategy(max_len: usize) -> impl Strategy<Value = AncContig> {
     ];
     let gaps = prop_oneof![
         5 => Just(Vec::new()),
-        4 => prop::collection::vec((any::<u16>(), prop_oneof![2 => 1u16..4, 4 => 4u16..40, 1 => 40u16..300], 0u8..9), 1..4),
+        4 => prop::collection::vec((any::<u16>(), prop_oneof![2 => 1u16..4, 4 => 4u16..40, 1 => 40u16..300], 0u8..14), 1..4),
     ];
     (len, any::<u64>(), prop::option::weighted(0.2, (1u8..9, 20u16..400)), gaps).prop_map(|(len, seed, low, gaps)| AncContig { len, seed, low, gaps })
 }
